@@ -26,6 +26,7 @@ enum Act {
     SelAll,
     TogAll,
     DeselAll,
+    AppendSel,   // append-and-select: the query becomes an item of its own, selected
 }
 
 #[derive(Clone, Debug)]
@@ -42,6 +43,8 @@ struct Sess {
     delays: Vec<(&'static str, usize, u64)>,
     set_ops: bool,          // C10 sessions: the accepted output is the selected set, not the list
     end: u8,                // C05 sessions: how the session is ended (0 = select-all + accept by the harness)
+    preview_log: Option<String>, // C20 sessions: the preview command appends its {cq} / {q} to this file
+    cmdq: Option<String>,     // interactive sessions (-i): the initial command query; the edits then go to the command line
     tiebreak: Option<String>, // C13 sessions: the --tiebreak option ("-" in a spec = option absent)
 }
 
@@ -70,7 +73,7 @@ fn gen_c10(r: &mut Rng) -> Sess {
     let mut delays = Vec::new();
     for _ in 0..r.below(3) { delays.push((*r.pick(&POINTS), 1 + r.below(4) as usize, *r.pick(&[5u64, 30, 120]))); }
     Sess { items, timeline, init_query: r.pick(&["", "a", "b", "ab"]).to_string(), exact: r.chance(1, 2), select1: false, exit0: false, sync: false,
-           header_lines: if r.chance(1, 4) { 1 + r.below(2) as usize } else { 0 }, no_clear_if_empty: false, delays, set_ops: true, end: 0, tiebreak: None }
+           header_lines: if r.chance(1, 4) { 1 + r.below(2) as usize } else { 0 }, no_clear_if_empty: false, delays, set_ops: true, end: 0, preview_log: None, cmdq: None, tiebreak: None }
 }
 
 fn gen_c05(r: &mut Rng) -> Sess {
@@ -79,10 +82,14 @@ fn gen_c05(r: &mut Rng) -> Sess {
     let mut timeline = Vec::new();
     if n_items > 0 { timeline.push((0, Act::Feed(n_items))); }
     timeline.push((0, Act::Eof));
-    for _ in 0..r.below(4) { timeline.push((*r.pick(&[0u64, 5, 20]), if r.chance(2, 3) { Act::Add(*r.pick(&['a', 'b', 'c', 'x'])) } else { Act::Back })); }
+    // interactive mode: the conditional actions look at the filter query, not at the command line
+    let cmdq = if r.chance(1, 4) { Some(r.pick(&["", "zz"]).to_string()) } else { None };
+    if cmdq.is_none() {
+        for _ in 0..r.below(4) { timeline.push((*r.pick(&[0u64, 5, 20]), if r.chance(2, 3) { Act::Add(*r.pick(&['a', 'b', 'c', 'x'])) } else { Act::Back })); }
+    }
     timeline.push((0, Act::Settle));
     Sess { items, timeline, init_query: r.pick(&["", "", "a", "ab"]).to_string(), exact: true, select1: false, exit0: false, sync: false,
-           header_lines: 0, no_clear_if_empty: false, delays: vec![], set_ops: false, end: 1 + r.below(9) as u8, tiebreak: None }
+           header_lines: 0, no_clear_if_empty: false, delays: vec![], set_ops: false, end: 1 + r.below(9) as u8, preview_log: None, cmdq, tiebreak: None }
 }
 
 fn gen_c13(r: &mut Rng) -> Sess {
@@ -96,7 +103,17 @@ fn gen_c13(r: &mut Rng) -> Sess {
         k => Some(["foo", "", "index,bar", "begin", "-begin", "length", "-length,begin", "end", "score,-end", "foo,length", "-score", "begin,begin,length", "LENGTH"][k as usize - 1].to_string()),
     };
     Sess { items, timeline, init_query: r.pick(&["a", "b", "ab", ""]).to_string(), exact: r.chance(1, 2), select1: false, exit0: false, sync: false,
-           header_lines: 0, no_clear_if_empty: false, delays: vec![], set_ops: false, end: 1, tiebreak }
+           header_lines: 0, no_clear_if_empty: false, delays: vec![], set_ops: false, end: 1, preview_log: None, cmdq: None, tiebreak }
+}
+
+/// interactive session with a preview that depends on the command query, which does not occur in the command
+fn gen_c20(r: &mut Rng, log: String) -> Sess {
+    let items: Vec<String> = (0..(1 + r.below(4))).map(|i| format!("it{}", i)).collect();
+    let mut timeline = vec![(0, Act::Feed(items.len())), (0, Act::Eof), (0, Act::Settle)];
+    for _ in 0..(1 + r.below(3)) { timeline.push((*r.pick(&[0u64, 5, 40, 120]), if r.chance(3, 4) { Act::Add(*r.pick(&['x', 'y', 'z'])) } else { Act::Back })); }
+    timeline.push((0, Act::Settle));
+    Sess { items, timeline, init_query: String::new(), exact: true, select1: false, exit0: false, sync: false, header_lines: 0, no_clear_if_empty: false,
+           delays: vec![], set_ops: false, end: 1, preview_log: Some(log), cmdq: Some(r.pick(&["", "c"]).to_string()), tiebreak: None }
 }
 
 fn gen(r: &mut Rng, focus: &str) -> Sess {
@@ -104,6 +121,18 @@ fn gen(r: &mut Rng, focus: &str) -> Sess {
     if focus == "C13" { return gen_c13(r); }
     if focus == "C05" { return gen_c05(r); }
     let c14 = focus == "C14";
+    // a source that has ended (often empty) before the first heartbeat looks at it: the result set is final with no matcher run at all
+    if (c14 || focus == "C01") && r.chance(1, 10) {
+        let n = *r.pick(&[0usize, 0, 0, 1, 2]);
+        let items: Vec<String> = (0..n).map(|i| format!("{}{}", r.pick(&WORDS), i)).collect();
+        let mut timeline = Vec::new();
+        if n > 0 { timeline.push((0, Act::Feed(n))); }
+        timeline.push((0, Act::Eof));
+        let (s1, e0) = match r.below(3) { 0 => (true, false), 1 => (false, true), _ => (true, true) };
+        return Sess { items, timeline, init_query: r.pick(&["", "", "a", "xyz"]).to_string(), exact: r.chance(1, 2), select1: c14 && s1, exit0: c14 && e0, sync: false,
+                      header_lines: 0, no_clear_if_empty: false, delays: vec![("hb.stopped", 1, *r.pick(&[30u64, 120]))], set_ops: false, end: 0,
+                      preview_log: None, cmdq: None, tiebreak: None };
+    }
     let n_runs = if focus == "C01" { match r.below(20) { 0..=13 => 1, 14..=18 => 2, _ => 3 } } else { 1 };
     let mut items: Vec<String> = Vec::new();
     let mut feed_acts = Vec::new();
@@ -122,7 +151,8 @@ fn gen(r: &mut Rng, focus: &str) -> Sess {
         if k + 1 == n_runs || r.chance(2, 3) { feed_acts.push(Act::Eof); }
     }
     let n_items = items.len();
-    let n_edits = if c14 { 0 } else { r.below(5) as usize };
+    // with -1/-0 pending the user may already be typing
+    let n_edits = if c14 { if r.chance(1, 3) { 1 + r.below(2) as usize } else { 0 } } else { r.below(5) as usize };
     let mut edit_acts = Vec::new();
     for _ in 0..n_edits {
         edit_acts.push(match r.below(10) {
@@ -132,6 +162,8 @@ fn gen(r: &mut Rng, focus: &str) -> Sess {
             _ => Act::Hb,
         });
     }
+    // sometimes the query is appended as an item of its own (append-and-select); such sessions are judged by the oracle only
+    if (focus == "C01" || focus == "C15") && !feed_acts.iter().any(|a| matches!(a, Act::Cmd)) { if r.chance(1, 8) { for _ in 0..(1 + r.below(2)) { let k = r.below(edit_acts.len() as u64 + 1) as usize; edit_acts.insert(k, Act::AppendSel); } } }
     let mut timeline = Vec::new();
     let (mut i, mut j) = (0, 0);
     while i < feed_acts.len() || j < edit_acts.len() {
@@ -155,6 +187,7 @@ fn gen(r: &mut Rng, focus: &str) -> Sess {
     for _ in 0..r.below(3) {
         delays.push((*r.pick(&POINTS), 1 + r.below(4) as usize, *r.pick(&[5u64, 30, 120, 250])));
     }
+    let has_append = timeline.iter().any(|x: &(u64, Act)| matches!(x.1, Act::AppendSel));
     Sess {
         items,
         timeline,
@@ -163,11 +196,13 @@ fn gen(r: &mut Rng, focus: &str) -> Sess {
         select1: c14 && r.chance(2, 3),
         exit0: c14 && r.chance(2, 3),
         sync: c14 && r.chance(1, 4),
-        header_lines: if r.chance(1, 4) || focus == "C15" && r.chance(1, 2) { 1 + r.below(3) as usize } else { 0 },
+        header_lines: if has_append { 0 } else if r.chance(1, 4) || focus == "C15" && r.chance(1, 2) { 1 + r.below(3) as usize } else { 0 },
         no_clear_if_empty: r.chance(1, 8),
         delays,
         set_ops: false,
         end: 0,
+        preview_log: None,
+        cmdq: None,
         tiebreak: None,
     }
 }
@@ -191,7 +226,7 @@ fn leak(s: &str) -> &'static str {
 
 /// `items=ab0,cab1;tl=0:F2,5:E,10:+a,0:-,0:R,0:H;q=ab;exact=1;s1=1;e0=0;sync=0;hl=0;ncie=0;delays=m.take:1:60`
 fn parse_spec(spec: &str) -> Sess {
-    let mut s = Sess { items: vec![], timeline: vec![], init_query: String::new(), exact: false, select1: false, exit0: false, sync: false, header_lines: 0, no_clear_if_empty: false, delays: vec![], set_ops: false, end: 0, tiebreak: None };
+    let mut s = Sess { items: vec![], timeline: vec![], init_query: String::new(), exact: false, select1: false, exit0: false, sync: false, header_lines: 0, no_clear_if_empty: false, delays: vec![], set_ops: false, end: 0, preview_log: None, cmdq: None, tiebreak: None };
     for kv in spec.split(';') {
         let (k, v) = kv.split_once('=').unwrap_or((kv, ""));
         match k {
@@ -210,6 +245,7 @@ fn parse_spec(spec: &str) -> Sess {
                         "A" => Act::SelAll,
                         "T" => Act::TogAll,
                         "D" => Act::DeselAll,
+                        "P" => Act::AppendSel,
                         _ => Act::Hb,
                     };
                     s.timeline.push((d.parse().unwrap(), act));
@@ -224,6 +260,8 @@ fn parse_spec(spec: &str) -> Sess {
             "ncie" => s.no_clear_if_empty = v == "1",
             "setops" => s.set_ops = v == "1",
             "end" => s.end = v.parse().unwrap_or(0),
+            "pvlog" => s.preview_log = if v == "-" { None } else { Some(v.to_string()) },
+            "cmdq" => s.cmdq = if v == "-" { None } else { Some(v.to_string()) },
             "tb" => s.tiebreak = if v == "-" { None } else { Some(v.replace('+', ",")) },
             "delays" => {
                 for e in v.split(',').filter(|x| !x.is_empty()) {
@@ -239,10 +277,10 @@ fn parse_spec(spec: &str) -> Sess {
 
 fn spec_of(s: &Sess) -> String {
     let tl: Vec<String> = s.timeline.iter().map(|(d, a)| format!("{}:{}", d, match a {
-        Act::Feed(k) => format!("F{}", k), Act::Eof => "E".into(), Act::Add(c) => format!("+{}", c), Act::Back => "-".into(), Act::Rotate => "R".into(), Act::Hb => "H".into(), Act::Cmd => "C".into(), Act::Settle => "S".into(), Act::SelAll => "A".into(), Act::TogAll => "T".into(), Act::DeselAll => "D".into() })).collect();
+        Act::Feed(k) => format!("F{}", k), Act::Eof => "E".into(), Act::Add(c) => format!("+{}", c), Act::Back => "-".into(), Act::Rotate => "R".into(), Act::Hb => "H".into(), Act::Cmd => "C".into(), Act::Settle => "S".into(), Act::SelAll => "A".into(), Act::TogAll => "T".into(), Act::DeselAll => "D".into(), Act::AppendSel => "P".into() })).collect();
     let dl: Vec<String> = s.delays.iter().map(|(n, k, ms)| format!("{}:{}:{}", n, k, ms)).collect();
-    format!("items={};tl={};q={};exact={};s1={};e0={};sync={};hl={};ncie={};setops={};end={};tb={};delays={}", s.items.join(","), tl.join(","), s.init_query,
-        s.exact as u8, s.select1 as u8, s.exit0 as u8, s.sync as u8, s.header_lines, s.no_clear_if_empty as u8, s.set_ops as u8, s.end,
+    format!("items={};tl={};q={};exact={};s1={};e0={};sync={};hl={};ncie={};setops={};end={};pvlog={};cmdq={};tb={};delays={}", s.items.join(","), tl.join(","), s.init_query,
+        s.exact as u8, s.select1 as u8, s.exit0 as u8, s.sync as u8, s.header_lines, s.no_clear_if_empty as u8, s.set_ops as u8, s.end, s.preview_log.clone().unwrap_or_else(|| "-".to_string()), s.cmdq.clone().unwrap_or_else(|| "-".to_string()),
         s.tiebreak.as_ref().map(|t| t.replace(',', "+")).unwrap_or_else(|| "-".to_string()), dl.join(","))
 }
 
@@ -269,6 +307,7 @@ struct Outcome {
     stalled: bool,          // never reached quiescence
     final_query: String,
     regex: bool,
+    appended: Vec<String>,  // texts turned into items by append-and-select
     final_key: String,
     final_event: String,
     out_query: String,
@@ -311,6 +350,7 @@ fn run(s: &Sess) -> Outcome {
     V::trace_start(s.delays.clone());
     let th = std::thread::spawn(move || {
         let q = s2.init_query.clone();
+        let pv_cmd: Option<String> = s2.preview_log.as_ref().map(|f| format!("echo cq={{cq}} q={{q}} >> {}", f));
         let options = SkimOptionsBuilder::default()
             .multi(true)
             .query(Some(&q))
@@ -323,6 +363,9 @@ fn run(s: &Sess) -> Outcome {
             .header_lines(s2.header_lines)
             .no_clear_if_empty(s2.no_clear_if_empty)
             .tiebreak(s2.tiebreak.clone())
+            .preview(pv_cmd.as_deref())
+            .interactive(s2.cmdq.is_some())
+            .cmd_query(s2.cmdq.as_deref())
             .build()
             .unwrap();
         V::run_session(&options, None, move |tx| {
@@ -347,6 +390,7 @@ fn run(s: &Sess) -> Outcome {
     let mut regex = false;
     let mut next = 0;
     let mut sent_nonhb = 0usize;
+    let mut appended: Vec<String> = Vec::new();
     let mut run_no = 0;
     let mut run_start = 0;
     let mut cur: Option<SkimItemSender> = sender_of(0);
@@ -410,6 +454,7 @@ fn run(s: &Sess) -> Outcome {
             Act::SelAll => { let _ = tx.send((Key::Null, Event::EvActSelectAll)); sent_nonhb += 1; }
             Act::TogAll => { let _ = tx.send((Key::Null, Event::EvActToggleAll)); sent_nonhb += 1; }
             Act::DeselAll => { let _ = tx.send((Key::Null, Event::EvActDeselectAll)); sent_nonhb += 1; }
+            Act::AppendSel => { if !query.is_empty() && s.cmdq.is_none() { appended.push(query.clone()); } let _ = tx.send((Key::Null, Event::EvActAppendAndSelect)); sent_nonhb += 1; }
             Act::Cmd => {
                 cur.take();
                 drop_run(run_no);
@@ -484,7 +529,7 @@ fn run(s: &Sess) -> Outcome {
         Some(o) => (o.is_abort, o.selected_items.iter().map(|i| i.output().to_string()).collect(), format!("{:?}", o.final_key), format!("{:?}", o.final_event), o.query.clone()),
         None => (true, vec![], String::new(), String::new(), String::new()),
     };
-    Outcome { auto, is_abort, output, trace, stalled, final_query: query, regex, final_key, final_event, out_query, run_start, fed: next }
+    Outcome { auto, is_abort, output, trace, stalled, appended, final_query: query, regex, final_key, final_event, out_query, run_start, fed: next }
 }
 
 
@@ -943,7 +988,7 @@ fn unesc(s: &str) -> String {
 }
 
 /// one case: lines `id \t kind \t payload` (kind: case | fail | dist | distinct)
-fn run_case(seed: u64, id: u64, focus: &str, spec: Option<&String>, out: &mut Vec<String>) {
+fn run_case(seed: u64, id: u64, focus: &str, spec: Option<&String>, outdir: &std::path::Path, out: &mut Vec<String>) {
     let mut r = Rng::for_case(seed, id);
     let kind = if spec.is_some() { 0 } else { r.below(10) };
     if kind == 0 && spec.is_none() && focus == "C15" || (kind == 1 && spec.is_none()) {
@@ -965,9 +1010,11 @@ fn run_case(seed: u64, id: u64, focus: &str, spec: Option<&String>, out: &mut Ve
         }
         return;
     }
-    let s = match spec { Some(sp) => parse_spec(sp), None => gen(&mut r, focus) };
+    let s = match spec { Some(sp) => parse_spec(sp), None => if focus == "C20" { gen_c20(&mut r, outdir.join(format!("pv_{}.log", id)).to_string_lossy().to_string()) } else { gen(&mut r, focus) } };
     let input = spec_of(&s);
+    if let Some(f) = &s.preview_log { let _ = std::fs::remove_file(f); }
     let o = run(&s);
+    if std::env::var("SKV_TRACE").is_ok() { for t in &o.trace { eprintln!("{:?}", t); } eprintln!("output {:?}", o.output); }
     out.push(format!("{}\tdist\tkind=session", id));
     out.push(format!("{}\tdist\truns={}", id, 1 + s.timeline.iter().filter(|x| matches!(x.1, Act::Cmd)).count()));
     out.push(format!("{}\tdist\tedits={}", id, s.timeline.iter().filter(|x| matches!(x.1, Act::Add(_) | Act::Back | Act::Rotate)).count().min(4)));
@@ -1001,7 +1048,34 @@ fn run_case(seed: u64, id: u64, focus: &str, spec: Option<&String>, out: &mut Ve
             if o.output != want { bad = Some(format!("after the select-all / toggle-all / deselect-all history and re-filtering the accepted items are {:?}, the selected set is {:?}", o.output, want)); }
         } else if o.output.len() > 1 { bad = Some(format!("nothing is selected but {:?} was accepted", o.output)); }
     }
-    if s.tiebreak.is_some() || focus == "C13" {
+    let has_append = s.timeline.iter().any(|x| matches!(x.1, Act::AppendSel));
+    if let Some(f) = &s.preview_log {
+        // C20 through the event loop: the preview request carries the command query as edited
+        let mut cq = s.cmdq.clone().unwrap_or_default();
+        for (_, a) in &s.timeline { match a { Act::Add(c) => cq.push(*c), Act::Back => { cq.pop(); } _ => {} } }
+        // give the last preview child time to write
+        let want = format!("cq={} q={}", cq, s.init_query);
+        let t0 = Instant::now();
+        let mut last = String::new();
+        while t0.elapsed() < Duration::from_millis(3000) {
+            last = std::fs::read_to_string(f).unwrap_or_default().lines().last().unwrap_or("").to_string();
+            if last == want { break; }
+            std::thread::sleep(Duration::from_millis(20));
+        }
+        out.push(format!("{}\tdist\tkind=preview-through-loop", id));
+        if last != want { bad = Some(format!("the last preview request ran with {:?}, the command query and query as edited give {:?}", last, want)); }
+        let _ = std::fs::remove_file(f);
+    } else if has_append {
+        // the appended texts are items of their own and selected: accepted = listed matches + appended ones
+        let mut want: Vec<String> = exp.clone();
+        want.extend(o.appended.iter().cloned());   // selected when appended, and selected they stay (one key each within a run)
+        want.sort();
+        let mut got = o.output.clone();
+        got.sort();
+        out.push(format!("{}\tdist\tappend-and-select", id));
+        if o.stalled { bad = Some("no quiescent state within 20 s of the last input".to_string()); }
+        else if got != want { bad = Some(format!("after append-and-select the accepted items are {:?}; the matching items of the source plus the appended ones are {:?}", got, want)); }
+    } else if s.tiebreak.is_some() || focus == "C13" {
         // C13 end to end: the item on the cursor row of a fresh list is a best-ranked one under the criteria
         // the option stands for (names split at commas, unknown ones ignored; absent option: score, begin, end)
         let crit: Vec<V::RankCriteria> = match &s.tiebreak {
@@ -1032,8 +1106,10 @@ fn run_case(seed: u64, id: u64, focus: &str, spec: Option<&String>, out: &mut Ve
             6 => if n_match == 0 { (true, "Ctrl('g')", "EvActAbort") } else { (false, "Enter", "EvActAccept(None)") },
             8 => if q.is_empty() { (true, "Ctrl('a')", "EvActAbort") } else { (false, "Ctrl('a')", "EvActAccept(None)") },
             9 => if !q.is_empty() { (false, "Ctrl('a')", "EvActAccept(None)") } else { (true, "Ctrl('a')", "EvActAbort") },
-            _ => if q.is_empty() { (true, "Ctrl('d')", "EvActAbort") } else { (false, "Enter", "EvActAccept(None)") },
+            // delete-charEOF looks at the line being edited: the command line in interactive mode
+            _ => if s.cmdq.as_ref().map(|c| c.is_empty()).unwrap_or(q.is_empty()) { (true, "Ctrl('d')", "EvActAbort") } else { (false, "Enter", "EvActAccept(None)") },
         };
+        if s.cmdq.is_some() { out.push(format!("{}\tdist\tinteractive", id)); }
         out.push(format!("{}\tdist\tend={}", id, s.end));
         if o.is_abort != want_abort || o.final_key != want_key || o.final_event != want_ev {
             bad = Some(format!("the session ended with abort={} key={} event={}; expected abort={} key={} event={} (query {:?}, {} matches)", o.is_abort, o.final_key, o.final_event, want_abort, want_key, want_ev, q, n_match));
@@ -1046,17 +1122,43 @@ fn run_case(seed: u64, id: u64, focus: &str, spec: Option<&String>, out: &mut Ve
         }
     } else if s.set_ops {
     } else if s.select1 || s.exit0 {
-        let n = exp.len();
-        if s.select1 && n == 1 {
-            if !(o.auto && !o.is_abort) { bad = Some(format!("--select-1 with exactly one match {:?}: the session did not accept on its own (auto={} abort={})", exp, o.auto, o.is_abort)); }
-            else if o.output != exp { bad = Some(format!("--select-1 accepted {:?}, the one matching item is {:?}", o.output, exp)); }
-        } else if s.exit0 && n == 0 {
-            if !(o.auto && o.is_abort) { bad = Some(format!("--exit-0 with no match: the session did not end on its own (auto={} abort={})", o.auto, o.is_abort)); }
-        } else if o.auto {
-            bad = Some(format!("{} item(s) match {:?} but the session ended on its own ({}): decided on a partial result", n, o.final_query, if o.is_abort { "exit-0" } else { "select-1" }));
+        // the decision is taken once, on the first complete result set: under the query as it stood then, which is
+        // the query at the end of the source or after any later edit (the harness cannot tell which; the replay
+        // through the model checks the decision against the recorded reads)
+        let mut states: Vec<(String, bool)> = Vec::new();
+        let (mut q, mut rx, mut ended) = (s.init_query.clone(), false, false);
+        let last_eof = s.timeline.iter().rposition(|x| matches!(x.1, Act::Eof));
+        for (k, (_, a)) in s.timeline.iter().enumerate() {
+            match a {
+                Act::Add(c) => q.push(*c),
+                Act::Back => { q.pop(); }
+                Act::Rotate => rx = !rx,
+                _ => {}
+            }
+            if Some(k) == last_eof { ended = true; }
+            if ended && !states.contains(&(q.clone(), rx)) { states.push((q.clone(), rx)); }
         }
+        if states.is_empty() { states.push((q.clone(), rx)); }
+        let mut why = Vec::new();
+        let mut ok = false;
+        for (qk, rxk) in &states {
+            let ek = expected(&s, o.run_start, o.fed, qk, *rxk);
+            let n = ek.len();
+            let last = qk == &o.final_query && *rxk == o.regex;
+            if s.select1 && n == 1 {
+                if o.auto && !o.is_abort && o.output == ek { ok = true; }
+                else { why.push(format!("--select-1 with exactly one match {:?} for {:?}: auto={} abort={} output={:?}", ek, qk, o.auto, o.is_abort, o.output)); }
+            } else if s.exit0 && n == 0 {
+                if o.auto && o.is_abort { ok = true; }
+                else { why.push(format!("--exit-0 with no match for {:?}: the session did not end on its own (auto={} abort={})", qk, o.auto, o.is_abort)); }
+            } else if o.auto {
+                why.push(format!("{} item(s) match {:?} but the session ended on its own ({}): decided on a partial result", n, qk, if o.is_abort { "exit-0" } else { "select-1" }));
+            } else { ok = true; }
+            let _ = last;
+        }
+        if !ok { bad = Some(why.join(" | ")); }
     }
-    if bad.is_none() && !o.auto && !s.set_ops && s.end == 0 {
+    if bad.is_none() && !o.auto && !s.set_ops && s.end == 0 && !has_append && s.preview_log.is_none() {
         if o.stalled { bad = Some("no quiescent state within 20 s of the last input (heartbeats stopped or never settle)".to_string()); }
         else {
             let stale_ok = s.no_clear_if_empty && exp.is_empty() && o.run_start > 0;
@@ -1066,6 +1168,7 @@ fn run_case(seed: u64, id: u64, focus: &str, spec: Option<&String>, out: &mut Ve
         }
     }
     if let Some(b) = bad { out.push(format!("{}\tfail\t{}\t{}", id, esc(&b), esc(&input))); }
+    if has_append { out.push(format!("{}\tok\toracle-only", id)); return; }
     match session_case(&s, &o) {
         Some(t) => out.push(format!("{}\tcase\t{}", id, esc(&t))),
         None => out.push(format!("{}\tfail\tno trace recorded\t{}", id, esc(&input))),
@@ -1082,7 +1185,7 @@ fn main() {
         let mut lines = Vec::new();
         let mut id = w;
         while id < a.n {
-            run_case(a.seed, id, &focus, None, &mut lines);
+            run_case(a.seed, id, &focus, None, &a.out, &mut lines);
             id += nw;
         }
         std::fs::write(a.out.join(format!("part_{}.txt", w)), lines.join("\n")).expect("write part");
@@ -1091,9 +1194,9 @@ fn main() {
     std::fs::create_dir_all(&a.out).expect("mkdir");
     let mut lines: Vec<String> = Vec::new();
     if let Some(i) = a.only {
-        run_case(a.seed, i, &focus, a.extra.get("spec"), &mut lines);
+        run_case(a.seed, i, &focus, a.extra.get("spec"), &a.out, &mut lines);
     } else if a.extra.get("spec").is_some() {
-        run_case(a.seed, 0, &focus, a.extra.get("spec"), &mut lines);
+        run_case(a.seed, 0, &focus, a.extra.get("spec"), &a.out, &mut lines);
     } else {
         let nw: u64 = a.extra.get("workers").map(|x| x.parse().unwrap()).unwrap_or(16);
         let exe = std::env::current_exe().unwrap();
